@@ -376,6 +376,10 @@ class Fn:
             if pl is not None:
                 return self.apath(pl, depth + 1, transparent) + tuple(ps)
             c = op_const(op)
+            ex = c[2] if isinstance(c[2], dict) else {}
+            if ex.get("pointee") and not c[1].startswith('"'):
+                # `&CONST` / `&&"literal"`: show the value behind the reference
+                return ("const:&%s" % ex["pointee"],) + tuple(ps)
             return ("const:%s" % c[1],) + tuple(ps)
         if k == "ref" or k == "raw":
             base = self.apath(rv[2], depth + 1, transparent)
@@ -454,6 +458,8 @@ class Fn:
         if 1 <= local <= self.argc:
             return with_proj("arg%d" % local)
         sd = self.single_def(local)
+        if sd is None and getattr(self, "_sym_path", None):
+            sd = self._def_on_path(local)
         if sd is None:
             nm = self.local_name(local)
             return with_proj(("var:%s" % nm) if nm else ("tmp%d" % local))
@@ -485,6 +491,27 @@ class Fn:
                 return with_proj("%s:%s" % (kind[0], kind[1]))
             return with_proj("%s(%s)" % (kind, ", ".join(self.sym(a, depth + 1) for a in rv[2])))
         return with_proj("tmp%d" % local)
+
+    def _def_on_path(self, local):
+        """for a local with several definitions: the last whole-local definition executed on the
+        path set by sym_on_path (None if the local was mutably borrowed or not defined there)"""
+        pos = self._sym_path
+        if local in self.mut_borrowed():
+            return None
+        cands = [d for d in self.defs().get(local, []) if not d[3] and d[0] in pos]
+        if not cands:
+            return None
+        return max(cands, key=lambda d: (pos[d[0]], 10 ** 6 if d[1] == "term" else d[1]))
+
+    def sym_on_path(self, x, path):
+        """sym() read along one acyclic CFG path: a local assigned in several blocks (the result
+        of a `match` / `if` expression, a flag) takes the definition that lies on the path"""
+        old = getattr(self, "_sym_path", None)
+        self._sym_path = {b: i for i, b in enumerate(path)}
+        try:
+            return self.sym(x)
+        finally:
+            self._sym_path = old
 
     def dest_s(self, place):
         """canonical path of an assignment destination: a bare local is itself (not what it
@@ -579,6 +606,35 @@ def short_callee(name):
 def short(name):
     """shorten a def path for display/keys: drop crate-internal module prefixes of std"""
     return name
+
+
+def private_helpers_of(prog, roots):
+    """uids of non-`pub` plain functions all of whose callers are `roots` or other such helpers
+    (fixpoint).  A rule that says `only these functions may do X` treats them as part of their
+    single owner, so extracting a private helper does not change its verdict."""
+    cg = prog.callgraph()
+    rev = {}
+    for u, es in cg.items():
+        for v in es:
+            rev.setdefault(v, set()).add(u)
+    owned = set(r.uid for r in roots)
+    helpers = set()
+    changed = True
+    while changed:
+        changed = False
+        for uid, fn in prog.fns.items():
+            if uid in owned or fn.kind not in ("fn", "assoc_fn"):
+                continue
+            if fn.d.get("pub"):
+                continue
+            callers = rev.get(uid, set())
+            # closures of an owned function count as that function
+            callers = set(prog.fns[c].root or c if prog.fns[c].kind in ("closure", "coroutine") else c for c in callers if c in prog.fns)
+            if callers and callers <= owned:
+                owned.add(uid)
+                helpers.add(uid)
+                changed = True
+    return helpers
 
 
 def norm_path(ap):
@@ -692,6 +748,19 @@ class Program:
             if n.get("k") == "closure" and n.get("def") == fn.uid:
                 return {"name": fn.name, "params": n["params"], "body": n["body"], "closure": True}
         raise AnchorError("closure %s not found in HIR of %s" % (fn.uid, root))
+
+    # ---- inlining of private helpers (robustness against `extract function` refactorings)
+    def inline(self, fn, keep=None, depth=2):
+        """`fn` with its private, non-generic, non-recursive local helpers spliced in (see
+        analyzer/inline.py).  `keep` is a regex of callee names whose call sites must stay
+        visible because the calling rule treats them as anchors."""
+        from .inline import inline as _inline
+
+        cache = self.__dict__.setdefault("_inl", {})
+        key = (fn.uid, keep, depth)
+        if key not in cache:
+            cache[key] = _inline(self, fn, keep, depth)
+        return cache[key]
 
     # ---- call graph
     def callgraph(self):
